@@ -68,12 +68,12 @@ func c05Worker() {
 				continue
 			}
 			if time.Since(st) > c05Deadline {
-				reply(Ev{"outcome": "hang", "panic": "", "site": "", "alloc": 0, "stack": 0, "input_same": true})
+				reply(Ev{"outcome": "hang", "panic": "", "site": "", "alloc": 0, "print_alloc": 0, "stack": 0, "input_same": true})
 				os.Exit(3)
 			}
 			runtime.ReadMemStats(&ms)
 			if ms.HeapAlloc > c05HeapLimit {
-				reply(Ev{"outcome": "oom", "panic": "", "site": "", "alloc": int(c05HeapLimit), "stack": 0, "input_same": true})
+				reply(Ev{"outcome": "oom", "panic": "", "site": "", "alloc": int(c05HeapLimit), "print_alloc": 0, "stack": 0, "input_same": true})
 				os.Exit(4)
 			}
 		}
@@ -112,8 +112,9 @@ func c05Worker() {
 			frameKeep := append([]byte(nil), frame...)
 			keep := append([]byte(nil), input...)
 			arg := GI(req["arg"])
-			r := Ev{"outcome": "", "panic": "", "site": "", "alloc": 0, "stack": 0, "input_same": true}
+			r := Ev{"outcome": "", "panic": "", "site": "", "alloc": 0, "print_alloc": 0, "stack": 0, "input_same": true}
 			var m0, m1 runtime.MemStats
+			c05PrintBytes = 0
 			runtime.ReadMemStats(&m0)
 			for k := 0; k < 12 && m0.StackInuse > 4<<20; k++ { // a stack grown by an earlier call shrinks at collections
 				runtime.GC()
@@ -137,10 +138,18 @@ func c05Worker() {
 			bmu.Unlock()
 			runtime.ReadMemStats(&m1)
 			a := m1.TotalAlloc - m0.TotalAlloc
+			pa := c05PrintBytes
+			if pa > a {
+				pa = a
+			}
+			a -= pa // what printing the returned object allocated is reported apart
 			if a > 2000000000 {
 				a = 2000000000
 			}
-			r["alloc"] = int(a)
+			if pa > 2000000000 {
+				pa = 2000000000
+			}
+			r["alloc"], r["print_alloc"] = int(a), int(pa)
 			// the goroutine's stack keeps the size it grew to until a later collection shrinks it
 			if m1.StackInuse > m0.StackInuse {
 				st := m1.StackInuse - m0.StackInuse
@@ -253,7 +262,7 @@ func c05Call(e Ev) Ev {
 		}
 		if resp == nil {
 			child.cmd.Wait()
-			resp = Ev{"outcome": "crash", "panic": "worker died without a report", "site": "", "alloc": 0, "stack": 0, "input_same": true}
+			resp = Ev{"outcome": "crash", "panic": "worker died without a report", "site": "", "alloc": 0, "print_alloc": 0, "stack": 0, "input_same": true}
 			// the Go runtime names a fatal error on standard error before it ends the process: that is the library's
 			// failure (no recover can catch it); anything else that kills the worker is a failure of the harness
 			if msg := child.err.String(); strings.Contains(msg, "fatal error:") || strings.Contains(msg, "goroutine stack exceeds") {
@@ -271,7 +280,7 @@ func c05Call(e Ev) Ev {
 		child.cmd.Process.Kill()
 		child.cmd.Wait()
 		c05c = nil
-		resp = Ev{"outcome": "hang", "panic": "worker unresponsive", "site": "", "alloc": 0, "stack": 0, "input_same": true}
+		resp = Ev{"outcome": "hang", "panic": "worker unresponsive", "site": "", "alloc": 0, "print_alloc": 0, "stack": 0, "input_same": true}
 	}
 	return resp
 }
@@ -303,7 +312,7 @@ func (c05) Exec(h []Ev) []Ev {
 	for _, e := range h {
 		if c05Bad[GS(e["op"])] >= 3 {
 			e["outcome"], e["panic"], e["site"], e["alloc"], e["input_same"] = "not-run", "", "", 0, true
-			e["stack"] = 0
+			e["stack"], e["print_alloc"] = 0, 0
 			e["len"] = c05Len(e)
 			e["kind"] = c05Kind[GS(e["op"])]
 			continue
@@ -338,6 +347,7 @@ func (c05) Exec(h []Ev) []Ev {
 		e["len"] = c05Len(e)
 		e["alloc"] = GI(e["alloc"])
 		e["stack"] = GI0(e["stack"])
+		e["print_alloc"] = GI0(e["print_alloc"])
 		e["kind"] = c05Kind[GS(e["op"])]
 	}
 	return h
